@@ -461,6 +461,9 @@ def _sched_job(job):
 
 
 def replay(data):
+    if data.get('kind') == 'crt':
+        from . import C20
+        return C20.replay(data)
     if data['kind'] == 'bfs':
         from ..detsched import Sched
         out = {}
@@ -525,6 +528,15 @@ def run(tier, seed):
                 viol.append({'sig': v['sig'], 'msg': v['msg'], 'replay': {'kind': 'bfs-task', 'n': n, 'history': v['history']}})
     Sched().run_inline(go)
 
+    # (a3) "every semaphore of the manager": the CRT manager's permit semaphore, through C20's stub
+    # harness (sequences with one failing construction step, incl. a raising on_queued subscriber)
+    from . import C20
+    ccfgs = [c for c in C20.configs('quick') if any(o != 'ok' for _, o in c['transfers'])][::7]
+    cst, cviol = C20._job({'cfgs': ccfgs, 'bound': {'env': 1, 'sched': 0}, 'max_execs': 20000})
+    cov['parts']['CRT manager permit semaphore'] = {'sequences': len(ccfgs), 'executions': cst.executions}
+    for v in cviol:
+        if v['sig'] in ('C20:permit-released-without-acquire', 'C20:permit-leak'):
+            viol.append({'sig': 'C12:crt:' + v['sig'].split(':', 1)[1], 'msg': v['msg'], 'replay': v['replay']})
     # (b) schedules
     cfgs = sched_configs(tier)
     jobs = [(c, 2 if tier == 'quick' else 4, 400000 if tier == 'quick' else 3000000) for c in cfgs]
